@@ -369,7 +369,11 @@ Proof.
     destruct (lookup c cells) as [cl|]; [|discriminate].
     destruct (pot_convert _ matching u0 u1 cl s) as [[[id|] s1]|] eqn:Ep; [| |discriminate].
     + inversion H; subst. apply (pot_convert_fict _ _ _ _ _ IH) in Ep. exact Ep.
-    + inversion H; subst. apply (pot_convert_fict _ _ _ _ _ IH) in Ep. exact Ep.
+    + inversion H; subst. apply (pot_convert_fict _ _ _ _ _ IH) in Ep.
+      eapply newfict_trans; [exact Ep|]. intros k v Hl. simpl in Hl.
+      destruct (Z.eq_dec k (cnt s1 + 1)) as [->|Hne].
+      * rewrite lookup_dset_same in Hl. inversion Hl; subst. now right.
+      * rewrite lookup_dset_other in Hl by assumption. now left.
 Qed.
 
 (* ---- pot_convert, convert_cellref, the conversion loop ---- *)
@@ -461,8 +465,30 @@ Section Cells.
         intros c' id' Hl. destruct (Z.eq_dec c' c) as [->|Hne].
         * rewrite lookup_dset_same in Hl. inversion Hl; subst. rewrite Hden. exact Q3.
         * rewrite lookup_dset_other in Hl by assumption. eauto.
-      + inversion H; subst. rewrite Hden.
-        exact (pot_convert_post _ IH g orig s _ _ Ep Hok Hinv).
+      + (* the referenced cell is empty: the stand-in volume PLUS u0 MINUS u0 *)
+        inversion H; subst; clear H.
+        destruct (pot_convert_post _ IH g orig s _ _ Ep Hok Hinv) as (P1 & P2 & P3 & P4 & P5).
+        set (id := cnt s1 + 1) in *.
+        set (V := mkVol [u0] [u0] None (snd (g, orig)) true) in *.
+        assert (lookup id (vols s1) = None) as Hnew.
+        { destruct (lookup id (vols s1)) eqn:E; [|reflexivity]. apply P3 in E. unfold id in E. lia. }
+        assert (extends (vols s1) (dset id V (vols s1))) as He by now apply extends_dset.
+        assert (equa sigma V = false) as HeV.
+        { unfold Spec.equa, V. simpl. destruct (sigma u0); reflexivity. }
+        split; [eapply extends_trans; eauto|]. split; [simpl; unfold id; lia|]. split; [|split].
+        * intros k v Hl. simpl in *. destruct (Z.eq_dec k id) as [->|Hne]; [lia|].
+          rewrite lookup_dset_other in Hl by assumption. apply P3 in Hl. unfold id. lia.
+        * intros k Hk. simpl in Hk. destruct (Z.eq_dec k id) as [->|Hne]; [right; right; unfold id; lia|].
+          rewrite lookup_dset_other in Hk by assumption. exact (P4 k Hk).
+        * intros Hnn Hsem. simpl in Hnn.
+          destruct (P5 (nonone_extends _ _ He Hnn) Hsem) as [[Q1 Q2] Q3]. simpl in Q3.
+          assert (Vden sigma (dset id V (vols s1)) id (cden c)) as Hv.
+          { rewrite Hden, Q3, <- HeV. apply Vden_plain; [apply lookup_dset_same | reflexivity]. }
+          split; [|exact Hv]. split; simpl.
+          -- intros n id' Hl. destruct (Q1 n id' Hl) as (w & Hw & Ho & Hq). exists w; auto.
+          -- intros c' id' Hl. destruct (Z.eq_dec c' c) as [->|Hne].
+             ++ rewrite lookup_dset_same in Hl. inversion Hl; subst. exact Hv.
+             ++ rewrite lookup_dset_other in Hl by assumption. eapply Vden_mono; eauto.
   Qed.
 
   (* copying a volume under another key keeps its denotation *)
